@@ -320,12 +320,14 @@ OBLIGATIONS = [
        enumerated='document, option set (10, incl. falsy values), directory depth (0-3), directory and a CRLF copy of the target pre-existing, str / Path', realized_at=['_io._write (real temporary files)'],
        bounds={'quick': '5 x 10 x 4 x 2 x 2', 'thorough': 'same'}),
     Ob(id='C20.d', fn=ob_d, title='--kern2ekern (single file, explicit output, directory, recursive) writes what the API produces; converter round trip',
+       native_body=True,
        shard_of=lambda layout, order, crlf: layout + 5 * order, shards={'quick': 15, 'thorough': 15}, budget_s={'quick': 150, 'thorough': 600},
        witnesses=[{'layout': 2, 'order': 0, 'crlf': False}], min_confirmed=40,
        enumerated='invocation layout (5, incl. three kp.kern_to_ekern calls in one interpreter), order of three scores with 1 / 3 / 2 kern spines over the file names (6), line ending',
        realized_at=['python -m kernpy in a fresh interpreter per invocation, real temporary files'],
        bounds={'quick': '5 x 6 x 2 invocations, 1-3 files each (.krn / .kern)', 'thorough': 'same'}),
     Ob(id='C20.e', fn=ob_e, title='--ekern2kern on directories (.ekrn / .ekern, recursive or not)',
+       native_body=True,
        budget_s={'quick': 120, 'thorough': 600}, witnesses=[{'layout': 1, 'suffix': 0}], min_confirmed=4, enumerated='recursive flag, suffix arrangement',
        realized_at=['python -m kernpy in a fresh interpreter per invocation, real temporary files'], bounds={'quick': '2 x 2', 'thorough': 'same'}),
 ]
